@@ -56,7 +56,7 @@ structure RunSt where
   st : St
   prompts : List (Option Pat) := []
   streams : List (Nat × Bool) := []
-  deaths : List (Pat × Nat) := []
+  deaths : List Nat := []          -- registration ids of the open `with_death_string` frames
   deriving Repr, Inhabited
 
 namespace Chan
@@ -114,12 +114,14 @@ def runOp (op : Op) (r : RunSt) : OpRes × RunSt :=
     match r.streams with
     | [] => (.badop, r)
     | (id, prev) :: rest => (.unit, { r with st := streamExit id prev s, streams := rest })
-  | .deathEnter p e => (.unit, { r with st := deathEnter p e s, deaths := (p, e) :: r.deaths })
+  | .deathEnter p e =>
+    let (id, s) := deathEnter p e s
+    (.unit, { r with st := s, deaths := id :: r.deaths })
   | .deathExit =>
     match r.deaths with
     | [] => (.badop, r)
-    | (p, e) :: rest => (.unit, { r with st := deathExit p e s, deaths := rest })
-  | .deathAdd p e => (.unit, { r with st := deathEnter p e s })
+    | id :: rest => (.unit, { r with st := deathExit id s, deaths := rest })
+  | .deathAdd p e => (.unit, { r with st := (deathEnter p e s).2 })
   | .sleep n => (.unit, { r with st := { s with now := s.now + n } })
 
 def fwdText (l : List (Nat × Bytes)) : List (Nat × List Char) :=
